@@ -76,6 +76,7 @@ def run(rep):
     rep.guard(c02.p11, rep, w)    # the handler list must not be a buffer that overflows silently: a try statement deep in a recursion is legal
     rep.guard(x18, rep, w)
     rep.guard(x19, rep, w)
+    rep.guard(x20, rep, w)
     import c04_narrow
     rep.guard(c04_narrow.b4, rep, w)    # handler offsets that do not fit 16 bits are reported, not truncated (the handler would point into other code)
     import c15
@@ -1040,3 +1041,49 @@ def emit_error_returns(u):
             if rr.get('rv') == 'agg' and rr.get('adt') == 'std::result::Result' and rr.get('v') == 'Err':
                 out.add(bi)
     return out
+
+
+def x20(rep, w, prop='C08'):
+    """the slot in which JumpFinally parks a return (value and address) has one writer that fills it - the JumpFinally handler - and is otherwise
+    only emptied. Anything else stored there (the last value a fiber transferred, "for inspection") is taken for a parked return by the next
+    EndFinally, and a real parked return is overwritten by it."""
+    r = rep.rule('X20', 'the parked-return slot is filled only by the JumpFinally handler', floor=1)
+    jf = w.require_fn(VM + 'jump_finally_impl', prop)
+    _, ws = field_accesses(w, jf)
+    slots = sorted(fld for (adt, fld) in ws if adt.endswith('::ObjFiber') and 'return' in fld and fld not in ('return_handlers',))
+    if not slots:
+        raise Broken(prop, 'anchor', 'jump_finally_impl writes no return slot of the fiber')
+    import c01
+    for fld in slots:
+        writers = {}
+        for (g, sp, kind) in c01.field_writers(w, 'yarel::object::ObjFiber', fld):
+            if kind == 'store':
+                writers.setdefault(g.path, []).append(sp)
+        filling = []
+        for p_, sps in writers.items():
+            g = w.fns[p_]
+            # a store of None / Default / a taken-out value empties the slot; anything else fills it
+            for b in g.blocks:
+                for s_ in b['s']:
+                    d = s_.get('d') or {}
+                    if d.get('p') and isinstance(d['p'][-1], dict) and d['p'][-1].get('n') == fld:
+                        rr = s_.get('r', {})
+                        k = op_const(rr.get('o', {}) or {}) if rr.get('rv') == 'use' else None
+                        empty = (rr.get('rv') == 'agg' and rr.get('v') in ('None',)) or (k is not None) or (rr.get('rv') == 'agg' and not rr.get('ops'))
+                        src = op_place(rr.get('o', {}) or {}) if rr.get('rv') == 'use' else None
+                        if not empty and src is not None and not src.get('p'):
+                            # a temporary holding `None` / `Default::default()`
+                            for b2 in g.blocks:
+                                for s2 in b2['s']:
+                                    d2 = s2.get('d') or {}
+                                    r2 = s2.get('r', {})
+                                    if d2.get('l') == src['l'] and not d2.get('p') and r2.get('rv') == 'agg' and (r2.get('v') == 'None' or not r2.get('ops')):
+                                        empty = True
+                                t2 = b2['t']
+                                if t2['t'] == 'call' and (t2.get('dst') or {}).get('l') == src['l'] and strip_generics(callee_name(t2) or '').rsplit('::', 1)[-1] in ('default', 'take'):
+                                    empty = True
+                        if not empty and p_ not in filling:
+                            filling.append(p_)
+        extra = sorted(x for x in filling if x != jf.path and not x.endswith('ObjFiber::new'))
+        r.check(not extra, 'ObjFiber.%s is filled only by jump_finally_impl' % fld,
+                'ObjFiber.%s - the slot a return is parked in while a finally block runs - is also filled by %s: the next EndFinally resumes that as a return' % (fld, extra), jf.loc())
